@@ -61,6 +61,8 @@ Fixpoint spec_frames (fuel : nat) (si : streaminfo) (number : N) (bytes : list N
       else if h_variable h then Err EOther
       else if negb (h_number h =? number) then Err EFrameNumber
       else if negb ((h_bs h =? si_max_bs si) || match rest with [] => h_bs h <=? si_max_bs si | _ => false end) then Err EBlockSize
+      (* RFC 9639: a block of fewer than 16 samples is only allowed as the last one *)
+      else if negb ((16 <=? h_bs h) || match rest with [] => true | _ => false end) then Err EBlockSize
       else spec_frames fu si (number + 1) rest (sem_frame f :: acc)
     end
   end.
@@ -71,5 +73,6 @@ Definition spec_stream (file : list N) : res (streaminfo * list (list (list Z)))
   | Some (si, audio) =>
       frames <- spec_frames (S (length audio)) si 0 audio [] ;;
       let total := fold_left (fun a fr => a + match fr with c :: _ => N.of_nat (length c) | [] => 0 end) frames 0 in
-      if (si_total si =? 0) || (si_total si =? total) then Ok (si, frames) else Err ETooManySamples
+      if negb ((16 <=? si_min_bs si) && (si_min_bs si <=? si_max_bs si)) then Err EBlockSize
+      else if (si_total si =? 0) || (si_total si =? total) then Ok (si, frames) else Err ETooManySamples
   end.
